@@ -60,7 +60,7 @@ type link struct {
 func newLink(kind string) *link {
 	l := &link{}
 	if kind == "ws" {
-		l.ws = fakews.New(64)
+		l.ws = fakews.New(8192)
 		l.conn = wsx.NewWebSocketConn(l.ws)
 	} else {
 		l.tcp = env.NewCarrier()
